@@ -81,6 +81,7 @@ template <typename S> struct monitored : S {
 };
 
 struct st_px3 { unsigned char c[3]; }; struct st_p24 { double d[3]; }; struct st_p16 { uint64_t a, b; }; // buffer element types whose size does not divide typical frame sizes
+template <int N> struct st_odd { char c[N]; st_odd() { for (int i = 0; i < N; i++) c[i] = (char)('a' + i); } bool ok() const { for (int i = 0; i < N; i++) if (c[i] != (char)('a' + i)) return false; return true; } };
 struct c19_ctx { std::atomic<int> started{0}, finished{0}, canary_bad{0}; };
 // extra object with an alignment requirement above the frame's natural 8 bytes
 struct alignas(16) tracked16 { tracked t; long double ld; explicit tracked16(uint64_t id) : t(id), ld(1.5L) {} bool ok() const { return t.ok() && ((uintptr_t)this % alignof(tracked16)) == 0 && ld == 1.5L; } };
@@ -443,11 +444,39 @@ inline void storage_sequences(const vf::opts &o, vf::report &R, uint64_t seqs) {
                 }
                 if (res.err.empty() && tracked::live.load() != live0) res.err = "extra object of a never started coroutine not destroyed exactly once";
             };
+            // extra objects whose size is NOT a multiple of the pointer size, on top of the reusing policies (the request the base policy sees
+            // is then not a multiple of 8 either - plain coroutine frames never produce such sizes)
+            auto run_odd = [&](auto otag, auto btag, const char *what) {
+                using OT = typename decltype(otag)::type; using Base = typename decltype(btag)::type;
+                using ES = cocls::promise_extra_storage<OT, Base>;
+                monitored<ES> st([] { return OT(); });
+                c19_ctx C;
+                for (int k = 0; k < 3 && res.err.empty(); k++) {
+                    cocls::future<void> gate; auto gp = gate.get_promise();
+                    auto coro = k == 1 ? st_body<monitored<ES>, 29>(st, C, 20 + k, &gate) : st_body<monitored<ES>, 5>(st, C, 20 + k, &gate);
+                    if (!(*st).ok()) res.err = std::string("odd-sized extra object (") + what + ") not usable before the coroutine is started";
+                    cocls::future<int> f = coro.start();
+                    gp();
+                    if (res.err.empty() && (!f.ready() || f.value() != 20 + k)) res.err = "coroutine with an odd-sized extra object returned a wrong value";
+                }
+                if (res.err.empty() && C.canary_bad.load()) res.err = "frame contents overwritten (odd-sized extra object)";
+                res.desc += std::string(" + odd-sized extra object ") + what;
+            };
             struct tag8 { using type = tracked; }; struct tag16 { using type = tracked16; };
+            struct o1 { using type = st_odd<1>; }; struct o3 { using type = st_odd<3>; }; struct o13 { using type = st_odd<13>; };
+            struct bmt { using type = cocls::reusable_storage_mtsafe; }; struct bru { using type = cocls::reusable_storage; };
             bool over = r.chance(1, 2);
             if (over) run_extra(tag16{}, "alignas(16)"); else run_extra(tag8{}, "tracked");
             if (res.err.empty() && tracked::ctor.load() - ctor0 != 2) res.err = "extra objects constructed " + std::to_string(tracked::ctor.load() - ctor0) + " times for 2 coroutine objects";
             res.desc = std::string("promise_extra_storage<") + (over ? "alignas(16) type" : "tracked") + ">: create, inspect, start, finish, never-started";
+            if (res.err.empty()) switch (r.below(6)) {
+                case 0: run_odd(o1{}, bmt{}, "1 byte over reusable_storage_mtsafe"); break;
+                case 1: run_odd(o3{}, bmt{}, "3 bytes over reusable_storage_mtsafe"); break;
+                case 2: run_odd(o13{}, bmt{}, "13 bytes over reusable_storage_mtsafe"); break;
+                case 3: run_odd(o1{}, bru{}, "1 byte over reusable_storage"); break;
+                case 4: run_odd(o3{}, bru{}, "3 bytes over reusable_storage"); break;
+                default: run_odd(o13{}, bru{}, "13 bytes over reusable_storage"); break;
+            }
             break;
         }
         }
